@@ -44,6 +44,7 @@ const (
 	c10HABehindClass  = "C10-ha-promoted-standby-namespace-keyring-behind"
 	c10HASealCfgClass = "C10-ha-promoted-standby-namespace-seal-config-stale"
 	c10HAOpenClass    = "C10-ha-promoted-standby-namespace-open-after-manual-seal"
+	c10HAReadClass    = "C10-ha-standby-entry-unreadable-although-keyring-has-its-term"
 	c10HAUnreadable   = "C10-ha-entry-unreadable-after-failover"
 	c10HAValidRefused = "C10-ha-valid-key-refused-after-failover"
 	c10HAKeyringDiff  = "C10-ha-keyring-differs-after-failover"
@@ -1150,6 +1151,9 @@ func c10HAMatrix() []c10HACase {
 		c10HACase{op: "rotate-keyring", scope: "root", sync: "before", failover: "seal", persist: "rotate-keyring", lag: true},
 		c10HACase{op: "rotate-keyring", scope: "ns", sync: "before", failover: "seal", persist: "rotate-keyring", lag: true},
 		c10HACase{op: "rotate-keyring", scope: "ns", sync: "before", failover: "seal", persist: "rotation-config", lag: true},
+		// the standby serves reads while the notice of a rotation is late, then the notice arrives
+		c10HACase{op: "rotate-keyring-read-behind", scope: "ns", sync: "before", failover: "seal", persist: "rotate-keyring"},
+		c10HACase{op: "rotate-keyring-read-behind", scope: "root", sync: "before", failover: "seal", persist: "rotation-config"},
 		// the operator seals a namespace on the active node
 		c10HACase{op: "seal-ns", scope: "ns", sync: "before", failover: "seal", persist: "rotate-keyring"},
 		c10HACase{op: "seal-ns", scope: "ns", sync: "before", failover: "seal", persist: "rotate-keyring", lag: true},
@@ -1212,6 +1216,8 @@ func (h *c10HA) runCase(c c10HACase) {
 		err = h.rotateKeyring(a, scope)
 	case "seal-ns":
 		h.sealNS(a, scope)
+	case "rotate-keyring-read-behind":
+		err = h.rotateReadBehind(a, scope)
 	}
 	if err != nil {
 		h.viol("C10-key-op-failed", "%s in %s on the active node: %v", c.op, scope, err)
@@ -1329,6 +1335,87 @@ func (h *c10HA) runHistory(nops int) {
 	if !h.failed {
 		h.endState()
 	}
+}
+
+// standbyRawReads reads every raw entry of the scope on the standby. An entry whose term the
+// standby's keyring holds must read back; one of a term it lacks may fail (counted).
+func (h *c10HA) standbyRawReads(scope, when string) {
+	s := h.sby()
+	b := h.barrierOn(s, scope)
+	if b == nil || b.Sealed() {
+		return
+	}
+	kr, err := b.Keyring()
+	if err != nil {
+		return
+	}
+	st, prefix := h.storageOn(s, scope)
+	var ids []string
+	for id := range h.data {
+		ids = append(ids, id)
+	}
+	sort.Strings(ids)
+	for _, id := range ids {
+		p := strings.SplitN(id, "|", 3)
+		if p[0] != scope || p[1] != "raw" {
+			continue
+		}
+		t := h.header(prefix + p[2])
+		got, gerr := st.Get(c10Root, p[2])
+		if t > 0 && kr.TermKey(uint32(t)) != nil {
+			if gerr != nil || got == nil || string(got.Value) != h.data[id] {
+				h.viol(c10HAReadClass, "standby %s %s: %s barrier Get(%s) err=%v found=%v; the entry was written under term %d and the standby's keyring holds that term (active term %d)", s.name, when, scope, p[2], gerr, got != nil, t, kr.ActiveTerm())
+				return
+			}
+			h.r.Count("standby_reads_ok", 1)
+			continue
+		}
+		if gerr == nil && got != nil {
+			h.viol(c10HAReadClass, "standby %s %s: Get(%s) answered an entry of term %d without a key for that term", s.name, when, p[2], t)
+			return
+		}
+		h.r.Count("standby_reads_while_behind_failed_legitimately", 1)
+	}
+}
+
+// rotateReadBehind: the active node rotates the scope's keyring and writes under the new term;
+// the notices are late; the read-enabled standby serves reads meanwhile (the new entries cannot
+// be opened yet); then the notice of the upgrade key arrives, the standby installs the term, and
+// everything must read back on it.
+func (h *c10HA) rotateReadBehind(a *c10HANode, scope string) error {
+	_, prefix := h.storageOn(a, scope)
+	h.store.setHold(true)
+	h.lagged[scope] = true
+	h.step("notices", "the notices of the active node's next writes are late")
+	if err := h.rotateKeyring(a, scope); err != nil {
+		return err
+	}
+	h.write(a, scope)
+	if h.failed {
+		return nil
+	}
+	h.standbyRawReads(scope, "serving reads before the notice of the upgrade key arrived")
+	if h.failed {
+		return nil
+	}
+	h.store.setHold(false)
+	delete(h.lagged, scope)
+	up := fmt.Sprintf("%s%s%d", prefix, barrier.KeyringUpgradePrefix, h.keys(scope).term-1)
+	h.step("notices", "the notice of %s arrives at the standby", up)
+	h.store.announce(up)
+	if !h.awaitStandbyTerm(scope) {
+		return nil
+	}
+	h.standbyRawReads(scope, "after it installed the term the notice announced")
+	if h.failed {
+		return nil
+	}
+	if sc, what := h.readAll(h.sby(), map[string]bool{scope: true}); what != "" {
+		h.viol(c10HAReadClass, "standby %s after it installed term %d of the %s barrier: %s", h.sby().name, h.keys(scope).term, sc, what)
+		return nil
+	}
+	h.r.Count("standby_rereads_after_late_upgrade_notice", 1)
+	return nil
 }
 
 // rejoin: the node that was sealed at the fail-over is unsealed again with the current root
@@ -1449,4 +1536,6 @@ func TestVerif_C10_HAPair(t *testing.T) {
 	r.Require("standby_namespace_unsealed_by_key_sync", 40/div)
 	r.Require("promoted_nodes_persisted_every_keyring", 30/div)
 	r.Require("entries_read_back", 800/div)
+	r.Require("standby_reads_while_behind_failed_legitimately", 2/div)
+	r.Require("standby_rereads_after_late_upgrade_notice", 2/div)
 }
